@@ -159,6 +159,36 @@ def qr_worker(a):
     return 2, out
 
 
+def draw_ill(rng):
+    """M = P diag(d) Q, P, Q unimodular, condition number below 1e6 by the exact bound |M|_F^3 / det M, and large"""
+    import numpy as np
+    while True:
+        def uni():
+            M = np.eye(3, dtype=object)
+            for _ in range(rng.randint(2, 4)):
+                i, j = rng.sample([0, 1, 2], 2)
+                E = np.eye(3, dtype=object)
+                E[i, j] = rng.choice([-2, -1, 1, 2])
+                M = M.dot(E)
+            return M
+        P, Q = uni(), uni()
+        d = [rng.choice([1, 2, 3, 7]), rng.choice([1, 5, 40, 300]), rng.choice([300, 2000, 9000, 30000])]
+        rng.shuffle(d)
+        M = P.dot(np.diag(np.array(d, dtype=object))).dot(Q)
+        det = d[0] * d[1] * d[2]
+        fro2 = sum(int(x) * int(x) for x in M.ravel())
+        if fro2 ** 3 < (10 ** 12) * det * det and fro2 ** 3 > (10 ** 6) * det * det:      # 1e3 < bound < 1e6
+            return [[[int(x) for x in row] for row in P], [int(x) for x in d], [[int(x) for x in row] for row in Q]]
+
+
+def ill_worker(a):
+    import numpy as np
+    P, d, Q = [np.array(x, dtype=object) for x in a]
+    M = P.dot(np.diag(d)).dot(Q)
+    MtM = M.T.dot(M)
+    return qr_worker(([[int(x) for x in row] for row in M], [[int(x) for x in row] for row in MtM], int(d[0] * d[1] * d[2])))
+
+
 def run(tier, seed):
     warnings.simplefilter("ignore")
     v = common.Verdict("C02", tier, seed)
@@ -180,7 +210,8 @@ def run(tier, seed):
             mats.add(M)
     common.write_data_module(wd, "OrientCases", {
         "Pairs": common.TlaSet(pairs), "Mats": common.TlaSet([[list(r) for r in M] for M in sorted(mats)]),
-        "Hkls": common.TlaSet([[1, 0, 0]])})
+        "Hkls": common.TlaSet([[1, 0, 0]]),
+        "IllMats": common.TlaSet([draw_ill(rng) for _ in range(150 if tier == "quick" else 5000)])})
     r = common.run_tlc("Orient", "MC_Orient.cfg", wd, timeout=3000, heap="12g")
     if r.violated:
         raise common.MachineryError("Orient.tla: model-level identity violated: %s" % r.violated)
@@ -203,6 +234,12 @@ def run(tier, seed):
         v.case(("qr", repr(M)), sample={"UB": M, "det": det} if len(v.samples) < 4 else None)
         for o in out[:2]:
             v.violation(o, {"UB": M, "det": det})
+    ill = mrec[0].get("ill", [])
+    for M3, (n, out) in zip(ill, common.pmap(ill_worker, ill)):
+        ncalls += n
+        v.case(("ill", repr(M3)), sample={"UB_factors_P_d_Q": M3} if len(v.samples) < 5 else None)
+        for o in out[:2]:
+            v.violation(o + " [ill-conditioned UB = P.diag(%s).Q, condition number between 1e3 and 1e6]" % M3[1], {"P": M3[0], "d": M3[1], "Q": M3[2]})
     if v.violations:
         seen = {}
         for q in v.violations:
